@@ -11,10 +11,12 @@ type timeSeriesAndSamples struct {
 	size int
 	c    chan *model.ParserResponse
 	meta string
+	keys []uint64 // fingerprint-cache keys of the rows in ts
 }
 
 func (t *timeSeriesAndSamples) reset() {
 	t.size = 0
+	t.keys = nil
 	t.ts = &model.TimeSeriesData{
 		MDate:        make([]time.Time, 0, 100),
 		MLabels:      make([]string, 0, 100),
@@ -33,6 +35,7 @@ func (t *timeSeriesAndSamples) reset() {
 func (t *timeSeriesAndSamples) flush() {
 	t.c <- &model.ParserResponse{
 		TimeSeriesRequest: t.ts,
+		TimeSeriesFpKeys:  t.keys,
 		SamplesRequest:    t.spl,
 	}
 }
